@@ -1,8 +1,6 @@
 //! vcheck <ID> [--tier quick|thorough] [--replay FILE] [--seed N] [--cases N] [--jobs N]
 
-
-use engine::{run_prop, Opts};
-use vcheck::*;
+use engine::Opts;
 
 fn main() {
     let args: Vec<String> = std::env::args().skip(1).collect();
@@ -12,43 +10,22 @@ fn main() {
     }
     let id = args[0].clone();
     if id == "c19-exec" {
-        c19::exec_child();
+        vp_sys::c19::exec_child();
         return;
     }
     if id == "selftest-dump" {
         let n: usize = args.get(1).and_then(|s| s.parse().ok()).unwrap_or(1000);
         let seed: u64 = args.get(2).and_then(|s| s.parse().ok()).unwrap_or(1);
-        selftest::dump(n, seed);
+        vp_text::selftest::dump(n, seed);
         return;
     }
     let opts = Opts::from_args(&args[1..]);
-    match id.as_str() {
-        "C01" => run_prop(c01::C01, &opts),
-        "C02" => run_prop(c02::C02, &opts),
-        "C03" => run_prop(c03::C03, &opts),
-        "C04" => run_prop(c04::C04, &opts),
-        "C05" => run_prop(c05::C05, &opts),
-        "C06" => run_prop(c06::C06, &opts),
-        "C07" => run_prop(c07::C07, &opts),
-        "C08" => run_prop(c08::C08, &opts),
-        "C09" => run_prop(c09::C09, &opts),
-        "C10" => run_prop(c10::C10, &opts),
-        "C11" => run_prop(c11::C11, &opts),
-        "C12" => run_prop(c12::C12, &opts),
-        "C13" => run_prop(c13::C13, &opts),
-        "C14" => run_prop(c14::C14, &opts),
-        "C15" => run_prop(c15::C15, &opts),
-        "C16" => run_prop(c16::C16, &opts),
-        "C17" => run_prop(c17::C17, &opts),
-        "C18" => c18::run(&opts),
-        "C19" => run_prop(c19::C19, &opts),
-        "C20" => {
-            let p = c20::prepare(&opts.root, opts.tier);
-            run_prop(p, &opts)
-        }
-        o => {
-            eprintln!("unknown property {o}");
-            std::process::exit(2);
-        }
-    }
+    // each group crate runs the check if it owns the id (and never returns then)
+    vp_arith::dispatch(&id, &opts);
+    vp_arith2::dispatch(&id, &opts);
+    vp_text::dispatch(&id, &opts);
+    vp_misc::dispatch(&id, &opts);
+    vp_sys::dispatch(&id, &opts);
+    eprintln!("unknown property {id}");
+    std::process::exit(2);
 }
